@@ -45,7 +45,8 @@ def _resolve_locale(
     elif isinstance(_locale, str):
         try:
             locale = Locale.parse(_locale)
-        except UnknownLocaleError:
+        except (UnknownLocaleError, ValueError):
+            # Unknown, or not a well-formed locale identifier at all.
             locale = default
     else:
         raise LiquidTypeError(
